@@ -144,6 +144,7 @@ class Runner:
         self.sc = StepCounter().start()
         self._classes: dict[tuple, type] = {}
         self.minimised: set[str] = set()
+        self._ctx_classes: dict[str, type] = {}
         self.noted_obs = False
 
     def close(self) -> None:
@@ -159,6 +160,22 @@ class Runner:
             self._classes[key] = c
         return c
 
+    def context_class(self, measure: str) -> type:
+        c = self._ctx_classes.get(measure)
+        if c is None:
+            from liquid2 import RenderContext
+
+            fn = MN.MEASURES[measure]
+
+            class MeasuredContext(RenderContext):
+                def get_size_of_locals(self) -> int:
+                    if self.env.local_namespace_limit is None:
+                        return 0
+                    return sum(fn(v) for v in self.locals.values()) + self.local_namespace_carry
+
+            c = self._ctx_classes[measure] = MeasuredContext
+        return c
+
     def run(self, case: dict[str, Any], limits: dict[str, int | None], mode: str = "sync",
             recursion_limit: int | None = None, budget: int = STEP_BUDGET) -> Res:
         r = Res()
@@ -170,14 +187,27 @@ class Runner:
             r.status, r.err, r.msg = "parse", type(e).__name__, str(e).split("\n")[0]
             return r
         data = case.get("data") or {}
+        measure = case.get("measure")
         if self.monitor:
             r.mon = MN.activate(limits)
+            if measure:
+                r.mon.measure = MN.MEASURES[measure]
         saved_rl = sys.getrecursionlimit()
         if recursion_limit is not None:
             sys.setrecursionlimit(recursion_limit)
         self.sc.reset(budget)
         try:
-            if mode == "async":
+            if measure:
+                # the documented customisation: a RenderContext subclass overriding
+                # get_size_of_locals, driven through Template.render_with_context
+                rc = self.context_class(measure)(tpl, global_data=tpl.make_globals(dict(data)))
+                buf = tpl._get_buffer()
+                if mode == "async":
+                    drive(tpl.render_with_context_async(rc, buf))
+                else:
+                    tpl.render_with_context(rc, buf)
+                r.out = buf.getvalue()
+            elif mode == "async":
                 r.out = drive(tpl.render_async(**data))
             else:
                 r.out = tpl.render(**data)
@@ -280,6 +310,17 @@ class Facts:
                 ))
 
 
+def unrestored(m: MN.Mon, ex: dict[str, Any]) -> list[tuple[str, str, dict[str, Any]]]:
+    """A node that returned normally must leave the context's loop stack and loop carry as
+    it found them: whatever stays behind is multiplied into every later loop."""
+    o = m.unrestored
+    if o is None:
+        return []
+    return [(f"loop-limit:{o['what']}-not-restored@{o['node']}",
+             f"after a {o['node']} node returned, the context's loop stack went from {o['loops_before']} to "
+             f"{o['loops_after']} frames and its loop carry from {o['carry_before']} to {o['carry_after']}", ex)]
+
+
 def judge_huge(rn: Runner, f: Facts, mode: str) -> list[tuple[str, str, dict[str, Any]]]:
     """Transparency: every limit far above consumption."""
     out: list[tuple[str, str, dict[str, Any]]] = []
@@ -295,6 +336,7 @@ def judge_huge(rn: Runner, f: Facts, mode: str) -> list[tuple[str, str, dict[str
         out.append((f"transparency:error:{r.err}", f"limits far above consumption, render ended with {r.err} {r.msg}", ex))
         return out
     assert m is not None
+    out += unrestored(m, ex)
     if r.out != ref.U:
         out.append((differs_key("transparency", r.out or "", ref.U),
                     f"limits far above consumption change the output: {r.out!r:.120} != {ref.U!r:.120}", ex))
@@ -382,6 +424,8 @@ def judge_loop(rn: Runner, f: Facts, L: int, mode: str) -> list[tuple[str, str, 
     ctx = rn.ctx
     if abs(L - f.C) <= 1 or abs(L - f.M) <= 1 or r.status == "err":
         ctx.nt(f.case["root"], sorted(f.case["partials"].items()), repr(f.case.get("data")), "loop", L, mode)
+    if m is not None:
+        out += unrestored(m, ex)
     if m is not None and m.loop_over is not None:
         o = m.loop_over
         out.append((loop_key(o),
@@ -414,13 +458,16 @@ def judge_ns(rn: Runner, f: Facts, L: int, mode: str) -> list[tuple[str, str, di
     out: list[tuple[str, str, dict[str, Any]]] = []
     r = rn.run(f.case, {"ns": L}, mode)
     m = r.mon
-    ex = {"limit_kind": "ns", "limit": L, "mode": mode, "namespace_peak": f.N}
+    ex = {"limit_kind": "ns", "limit": L, "mode": mode, "namespace_peak": f.N,
+          "measure": f.case.get("measure") or "shallow"}
     ctx = rn.ctx
     if abs(L - f.N) <= 1 or r.status == "err":
         ctx.nt(f.case["root"], sorted(f.case["partials"].items()), repr(f.case.get("data")), "ns", L, mode)
     assert m is not None or r.status == "parse"
     if m is not None:
         ctx.count("assign_hook_hits", m.assigns)
+        if f.case.get("measure"):
+            ctx.count("custom_measure_assigns_in_copied_contexts", m.assigns_in_copies)
         if m.ns_over is not None:
             o = m.ns_over
             sub = o["why"]
@@ -439,7 +486,7 @@ def judge_ns(rn: Runner, f: Facts, L: int, mode: str) -> list[tuple[str, str, di
             out.append((differs_key("namespace-limit", r.out or "", f.U),
                         f"successful render under namespace limit {L} differs from the unrestricted output", ex))
         if m is not None and m.root_ctx is not None:
-            fin = MN.own_size(m.root_ctx)
+            fin = MN.own_size(m.root_ctx, m.measure)
             eng = m.root_ctx.get_size_of_locals()
             if fin > L or eng > L:
                 out.append(("namespace-limit:final-size-exceeds",
@@ -594,11 +641,11 @@ def report(rn: Runner, prog: dict[str, Any] | None, case: dict[str, Any],
             continue
         seen_here.add(cls)
         wit = {"case": {"root": case["root"], "partials": case["partials"], "data": case.get("data") or {},
-                        "marks": bool(case.get("marks"))}, **ex, "gen": gen_id}
+                        "marks": bool(case.get("marks")), **_flags(case)}, **ex, "gen": gen_id}
         if prog is not None and cls not in rn.minimised:
             rn.minimised.add(cls)
             try:
-                hit = minimise(rn, prog, cls, ex)
+                hit = minimise(rn, prog, cls, ex, _flags(case))
                 if hit is not None:
                     c, key, what, ex2 = hit
                     wit = {"case": c, **ex2, "gen": gen_id, "minimised": True}
@@ -607,7 +654,11 @@ def report(rn: Runner, prog: dict[str, Any] | None, case: dict[str, Any],
         ctx.violation(key, what, wit)
 
 
-def minimise(rn: Runner, prog: dict[str, Any], cls: str, ex: dict[str, Any]):
+def _flags(case: dict[str, Any]) -> dict[str, Any]:
+    return {k: case[k] for k in ("measure",) if case.get(k)}
+
+
+def minimise(rn: Runner, prog: dict[str, Any], cls: str, ex: dict[str, Any], flags: dict[str, Any] | None = None):
     """Shrink the program while a violation of the same class is reported at the same
     position relative to the (re-measured) consumption.  The key of the minimal witness
     is the one reported."""
@@ -620,6 +671,7 @@ def minimise(rn: Runner, prog: dict[str, Any], cls: str, ex: dict[str, Any]):
         c = G.emit(p)
         # the shrinker may delete marker characters: the cross-check no longer applies
         c["marks"] = cls == "monitor:marker-count-mismatch"
+        c.update(flags or {})
         f = Facts(rn, c)
         if not f.ok:
             return False
@@ -637,7 +689,8 @@ def minimise(rn: Runner, prog: dict[str, Any], cls: str, ex: dict[str, Any]):
             res += judge_huge(rn, f, mode)
         for k, w, e in res:
             if key_class(k) == cls:
-                last["hit"] = ({"root": c["root"], "partials": c["partials"], "data": c["data"], "marks": c["marks"]}, k, w, e)
+                last["hit"] = ({"root": c["root"], "partials": c["partials"], "data": c["data"], "marks": c["marks"],
+                                **(flags or {})}, k, w, e)
                 return True
         return False
 
@@ -653,7 +706,7 @@ def minimise(rn: Runner, prog: dict[str, Any], cls: str, ex: dict[str, Any]):
 def shards(tier: str, seed: int) -> list[dict[str, Any]]:
     # (kind, number of shards, cases per shard); thorough = 20 x the quick volume
     if tier == "quick":
-        plan = [("nest", 12, 46), ("ns", 6, 26), ("out", 6, 28), ("intr", 4, 45), ("vary", 3, 64), ("layer", 4, 45),
+        plan = [("nest", 12, 44), ("ns", 6, 26), ("out", 6, 28), ("intr", 4, 45), ("vary", 3, 64), ("layer", 4, 45),
                 ("shared", 2, 80), ("cycle", 2, 200), ("chain", 2, 160)]
     else:
         plan = [("nest", 24, 580), ("ns", 6, 640), ("out", 6, 640), ("intr", 6, 600), ("vary", 6, 640), ("layer", 6, 600), ("shared", 4, 800),
@@ -675,13 +728,16 @@ def floors(tier: str) -> dict[str, int]:
         "triples_namespace": 300 * k,
         "triples_depth": 300 * k,
         "cross_partial_nests": 100 * k,
-        "programs_with_interrupted_include_loop": 60 * k,
+        "programs_with_interrupted_include_loop": 50 * k,
         "intr_loop_limit_at_product_ok": 100 * k,
         "vary_nests_with_growing_inner": 60 * k,
         "item_nests_nonuniform": 40 * k,
         "set:longest_item_position": 3,
         "layer_programs_binding_in_several_contexts": 60 * k,
         "rebind_programs_cycling_through_nil": 40 * k,
+        "programs_with_custom_namespace_measure": 120 * k,
+        "custom_measure_assigns_in_copied_contexts": 1_000 * k,
+        "intr_programs_extends_inside_frames_of_included_partial": 25 * k,
         "rebinds_from_or_to_nil_observed": 2_000 * k,
         "cross_nests_carried_and_inherited": 40 * k,
         "programs_with_lone_surrogate_output": 30 * k,
@@ -719,6 +775,13 @@ def run_shard(spec: dict[str, Any], ctx: Ctx) -> None:
         rn.close()
 
 
+def _measured(ctx: Ctx, case: dict[str, Any], rng: random.Random) -> None:
+    """Render this case through a RenderContext subclass with its own get_size_of_locals."""
+    case["measure"] = rng.choice(["text", "text", "items", "names"])
+    ctx.count("programs_with_custom_namespace_measure")
+    ctx.seen("namespace_measures", case["measure"])
+
+
 def _nests(rn: Runner, spec: dict[str, Any], profile: str) -> None:
     ctx = rn.ctx
     for j in range(spec["per"]):
@@ -728,6 +791,8 @@ def _nests(rn: Runner, spec: dict[str, Any], profile: str) -> None:
         prog = g.program()
         case = G.emit(prog)
         case["marks"] = True
+        if profile == "ns" and j % 2 == 1:
+            _measured(ctx, case, rng)
         modes = ("sync", "async") if j % 3 == 0 else ("sync",)
         found = check_case(rn, case, rng, modes=modes)
         if found:
@@ -746,7 +811,11 @@ def _interrupts(rn: Runner, spec: dict[str, Any]) -> None:
         rng = random.Random(f"{spec['seed']}:intr:{spec['i']}:{j}")
         prog = G.IntrGen(rng, cr=rng.random() < 0.3).program()
         case = G.emit(prog)
-        case["marks"] = True
+        # (a partial that extends stops before everything it holds has run: no marker cross-check)
+        case["marks"] = "sbase" not in case["partials"]
+        case["sweep"] = True
+        if "sbase" in case["partials"]:
+            ctx.count("intr_programs_extends_inside_frames_of_included_partial")
         found = check_case(rn, case, rng, modes=("sync", "async") if j % 2 == 0 else ("sync",))
         if found is None:
             continue
@@ -815,6 +884,8 @@ def _layers(rn: Runner, spec: dict[str, Any]) -> None:
         prog = (G.RebindGen(rng) if rebind else G.LayerGen(rng)).program()
         case = G.emit(prog)
         case["sweep"] = True
+        if j % 4 >= 2:
+            _measured(ctx, case, rng)
         found = check_case(rn, case, rng, kinds=("huge", "ns"), modes=("sync", "async") if j % 3 == 0 else ("sync",))
         if found is None:
             continue
